@@ -7,7 +7,7 @@ use crate::report::{fnv, par_run, Report};
 use crate::rng::Rng;
 use serde_json::json;
 
-pub const RULE: &str = "For all 22 indicators: (a) every history of depth <= d over {next a, next b, next NaN, next +inf, reset} (scalar and bar forms) for periods 1..=4, followed by reset (single or double) and a continuation of 3n+3 fresh inputs (positive, signed, or - one in five - containing NaN and an infinity) fed in lock-step to a newly constructed twin; (a') the same enumeration over {next a, next b, reset, serialize-deserialize-swap, clone-swap} (a reset directly after a restore or clone); (a'') periods up to usize::MAX for the allocation-free indicators; (b) random histories up to thousands of operations mixing ordinary and non-finite/extreme inputs with repeated resets at random cursor positions. Oracle: every continuation output component within 1e-12 relative of the fresh twin's (bit-identity reported), Display/period/multiplier equal before and after reset and equal to the constructor arguments, reset of a fresh instance changes nothing. Non-trivial: history contains at least one next before the reset; distinct by construction (enumeration) or by hash of the op history.";
+pub const RULE: &str = "For all 22 indicators: (0) one instance reset 255/256/257/65535/65536/65537 times with sessions of 0..=3 inputs after a first session that wraps the window, then compared with a fresh one; (a) every history of depth <= d over {next a, next b, next NaN, next +inf, reset} (scalar and bar forms) for periods 1..=4, followed by reset (single or double) and a continuation of 3n+3 fresh inputs (positive, signed, or - one in five - containing NaN and an infinity) fed in lock-step to a newly constructed twin; (a') the same enumeration over {next a, next b, reset, serialize-deserialize-swap, clone-swap} (a reset directly after a restore or clone); (a'') periods up to usize::MAX for the allocation-free indicators; (b) random histories up to thousands of operations mixing ordinary and non-finite/extreme inputs with repeated resets at random cursor positions. Oracle: every continuation output component within 1e-12 relative of the fresh twin's (bit-identity reported), Display/period/multiplier equal before and after reset and equal to the constructor arguments, reset of a fresh instance changes nothing. Non-trivial: history contains at least one next before the reset; distinct by construction (enumeration) or by hash of the op history.";
 
 const REL: f64 = 1e-12;
 
@@ -336,8 +336,54 @@ fn run_huge_periods(ctx: &Ctx) -> Report {
     })
 }
 
+/// One instance reset very many times (a session counter, an epoch mark or a pool that only shows after 2^8
+/// or 2^16 resets): sessions of 0..=3 inputs, R resets in all, then the usual comparison with a fresh one.
+/// The first session is the long one (it fills and wraps the window with large values), so anything that a
+/// reset merely hides instead of clearing is there to come back.
+fn run_many_resets(ctx: &Ctx) -> Report {
+    let mut jobs = Vec::new();
+    for kind in ALL_KINDS {
+        for n in [2usize, 5] {
+            for r in [255usize, 256, 257, 65_535, 65_536, 65_537] {
+                for bars in [false, true] {
+                    if (!bars && !kind.has_scalar()) || (bars && r > 1000 && kind.has_scalar()) {
+                        continue;
+                    }
+                    jobs.push((kind, n, r, bars));
+                }
+            }
+        }
+    }
+    let seed = ctx.seed;
+    par_run(jobs, ctx.threads, move |(kind, n, r, bars), rep| {
+        let p = param_variants(*kind, *n);
+        let mut hist: Vec<Op> = continuation_finite(*bars, 3 * p.max_period() + 4, seed ^ 0x5E55)
+            .into_iter()
+            .map(|op| match op {
+                Op::NextF(x) => Op::NextF(x * 1000.0 + 5000.0),
+                Op::NextBar(b) => Op::NextBar(Bar { v: b.v, ..b.scale_prices(1000.0) }),
+                o => o,
+            })
+            .collect();
+        let filler = continuation_finite(*bars, 7, seed ^ (*r as u64));
+        for k in 0..(*r - 1) {
+            hist.push(Op::Reset);
+            for j in 0..(k % 4) {
+                hist.push(filler[(k + j) % filler.len()].clone());
+            }
+        }
+        let cont = continuation_finite(*bars, 3 * p.max_period() + 3, seed ^ 0xC0 ^ *n as u64);
+        check_history(rep, &p, &hist, &cont, false, "many_resets");
+        rep.count("many_resets.histories");
+        rep.distinct_by_construction += 1;
+    })
+}
+
 pub fn run(ctx: &Ctx) -> Report {
     let mut rep = Report::new();
+    if ctx.phase_enabled("resets") {
+        rep.merge(run_many_resets(ctx));
+    }
     if ctx.phase_enabled("huge") {
         rep.merge(run_huge_periods(ctx));
     }
@@ -348,7 +394,7 @@ pub fn run(ctx: &Ctx) -> Report {
         rep.merge(run_random(ctx));
     }
     if ctx.only.is_none() {
-        for key in ["enum.histories_with_nonfinite", "enum.histories_with_inner_reset", "random.histories", "continuations_bit_identical"] {
+        for key in ["many_resets.histories", "enum.histories_with_nonfinite", "enum.histories_with_inner_reset", "random.histories", "continuations_bit_identical"] {
             if rep.counters.get(key).copied().unwrap_or(0) == 0 {
                 rep.inconclusive.push(format!("coverage floor missed: {} = 0", key));
             }
